@@ -10,10 +10,9 @@ States are either arbitrary (`s`) — then the statement holds a fortiori after 
 state reached from the constructor by an arbitrary operation list `ops` (gets, puts, flushes, resizes, clock
 advances, statistics calls, in any order and number).
 
-`intended : Bool` selects the variant of `set_max_size` (`false` = the code as shipped, which neither evicts nor
-takes the lock — DESIGN §6 D14; `true` = evict down to the new limit).  Only `lru_bound` needs `intended = true`;
-`lru_bound_partial`, `lru_bound_after_every_put` are what holds for the code as shipped, and
-`lru_bound_asShipped_fails` is the counterexample.
+`set_max_size` is the repaired one (under the lock, evicting; DESIGN §6 D14 is fixed in the repository), so
+`lru_bound` is unconditional: after every operation of every sequence.  `bound_needs_eviction_in_set_max_size`
+records that the theorem fails for the former `set_max_size`.
 -/
 namespace C17
 open Model.Cache
@@ -21,7 +20,7 @@ open Model.Cache
 /-- state of `Cache(cleaning_interval=iv)` created at time `t0` after `ops` -/
 abbrev reachC (iv t0 : Nat) (ops : List Op) : CState := (runC (initC iv t0) ops).1
 /-- state of `LRUCache(max_size=n)` created at time `t0` after `ops` -/
-abbrev reachL (intended : Bool) (n : Int) (t0 : Nat) (ops : List Op) : LState := (runL intended (initL n t0) ops).1
+abbrev reachL (n : Int) (t0 : Nat) (ops : List Op) : LState := (runL (initL n t0) ops).1
 
 /-! ## never stale -/
 
@@ -47,7 +46,7 @@ theorem never_stale_cache (s : CState) (k : Key) (v : Nat) (h : (stepC s (.get k
       · rw [hn] at hexp; omega
 
 /-- "never return an answer at or after its expiration time" — `LRUCache.get`, from any state whatsoever. -/
-theorem never_stale_lru (i : Bool) (s : LState) (k : Key) (v : Nat) (h : (stepL i s (.get k)).2 = .val v) :
+theorem never_stale_lru (s : LState) (k : Key) (v : Nat) (h : (stepL s (.get k)).2 = .val v) :
     ∃ n ∈ s.ring, n.key = k ∧ n.ans.val = v ∧ s.now < n.ans.exp := by
   simp only [stepL] at h
   split at h
@@ -62,7 +61,7 @@ theorem never_stale_lru (i : Bool) (s : LState) (k : Key) (v : Nat) (h : (stepL 
 
 example : (stepC (reachC 300 1000 [.put 1 ⟨7, 1010⟩, .adv 9]) (.get 1)).2 = .val 7 := by decide
 example : (stepC (reachC 300 1000 [.put 1 ⟨7, 1010⟩, .adv 10]) (.get 1)).2 = .none := by decide
-example : (stepL false (reachL false 2 1000 [.put 1 ⟨7, 1010⟩, .adv 10]) (.get 1)).2 = .none := by decide
+example : (stepL (reachL 2 1000 [.put 1 ⟨7, 1010⟩, .adv 10]) (.get 1)).2 = .none := by decide
 
 /-! ## latest unexpired -/
 
@@ -75,115 +74,111 @@ theorem latest_unexpired_cache (iv t0 : Nat) (ops : List Op) (k : Key) :
 
 /-- `LRUCache`, soundness: whatever a lookup returns after any operation sequence is the most recent `put` of that
 key, not flushed since, and unexpired. -/
-theorem latest_unexpired_lru (i : Bool) (n : Int) (t0 : Nat) (ops : List Op) (k : Key) (v : Nat)
-    (h : (stepL i (reachL i n t0 ops) (.get k)).2 = .val v) :
-    ∃ a, specRun (fun _ => none) ops k = some a ∧ a.val = v ∧ (reachL i n t0 ops).now < a.exp := by
-  obtain ⟨nd, hmem, hk, hv, he⟩ := never_stale_lru i _ k v h
-  have hr := refL_run i (initL n t0) (fun _ => none) ops (invL_init n t0) (fun x hx => by cases hx) nd hmem
+theorem latest_unexpired_lru (n : Int) (t0 : Nat) (ops : List Op) (k : Key) (v : Nat)
+    (h : (stepL (reachL n t0 ops) (.get k)).2 = .val v) :
+    ∃ a, specRun (fun _ => none) ops k = some a ∧ a.val = v ∧ (reachL n t0 ops).now < a.exp := by
+  obtain ⟨nd, hmem, hk, hv, he⟩ := never_stale_lru _ k v h
+  have hr := refL_run (initL n t0) (fun _ => none) ops (invL_init n t0) (fun x hx => by cases hx) nd hmem
   rw [hk] at hr
   exact ⟨nd.ans, hr, hv, he⟩
 
 /-- `LRUCache`, completeness: an entry that is in the cache and unexpired is returned (so an answer is lost only
 by flush, by expiry, by being overwritten, or by the eviction characterised in `put_evicts_exactly_lru_tail`). -/
-theorem lru_get_present (i : Bool) (n : Int) (t0 : Nat) (ops : List Op) (k : Key) (nd : Node)
-    (hmem : nd ∈ (reachL i n t0 ops).ring) (hk : nd.key = k) (he : (reachL i n t0 ops).now < nd.ans.exp) :
-    (stepL i (reachL i n t0 ops) (.get k)).2 = .val nd.ans.val := by
-  have hinv := invL_run i (initL n t0) ops (invL_init n t0)
+theorem lru_get_present (n : Int) (t0 : Nat) (ops : List Op) (k : Key) (nd : Node)
+    (hmem : nd ∈ (reachL n t0 ops).ring) (hk : nd.key = k) (he : (reachL n t0 ops).now < nd.ans.exp) :
+    (stepL (reachL n t0 ops) (.get k)).2 = .val nd.ans.val := by
+  have hinv := invL_run (initL n t0) ops (invL_init n t0)
   have hf := findNode_of_mem hinv.nodup hmem hk
   simp only [stepL, hf]
-  have : ¬ nd.ans.exp ≤ (reachL i n t0 ops).now := by omega
+  have : ¬ nd.ans.exp ≤ (reachL n t0 ops).now := by omega
   simp [this]
 
-example : (stepL false (reachL false 2 1000 [.put 1 ⟨7, 1010⟩, .put 1 ⟨8, 1020⟩]) (.get 1)).2 = .val 8 := by decide
+example : (stepL (reachL 2 1000 [.put 1 ⟨7, 1010⟩, .put 1 ⟨8, 1020⟩]) (.get 1)).2 = .val 8 := by decide
 example : specRun (fun _ => none) [.put 1 ⟨7, 1010⟩, .put 1 ⟨8, 1020⟩, .flush 1] 1 = none := by decide
 
 /-! ## ring and dict agree -/
 
 /-- after every prefix of every sequence the ring carries each key at most once (so the key set of the ring is
 a dict: `data` and the ring agree), for both variants. -/
-theorem ring_wf (i : Bool) (n : Int) (t0 : Nat) (ops : List Op) : RingNodup (reachL i n t0 ops).ring :=
-  (invL_run i (initL n t0) ops (invL_init n t0)).nodup
+theorem ring_wf (n : Int) (t0 : Nat) (ops : List Op) : RingNodup (reachL n t0 ops).ring :=
+  (invL_run (initL n t0) ops (invL_init n t0)).nodup
 
 /-! ## the LRU bound -/
 
 /-- `put` in closed form, after any operation sequence: the new node is linked after the sentinel, the other
 nodes keep their order, and exactly the nodes beyond position `max_size - 1` — the least recently used ones — are
 dropped.  In particular nothing is dropped unless the cache is full. -/
-theorem put_evicts_exactly_lru_tail (i : Bool) (n : Int) (t0 : Nat) (ops : List Op) (k : Key) (a : Ans) :
-    (stepL i (reachL i n t0 ops) (.put k a)).1.ring =
-      { key := k, ans := a, hits := 0, stamp := (reachL i n t0 ops).tick + 1 } ::
-        (removeKey (reachL i n t0 ops).ring k).take ((reachL i n t0 ops).maxSize - 1) :=
-  stepL_put i _ k a (invL_run i (initL n t0) ops (invL_init n t0)).maxPos
+theorem put_evicts_exactly_lru_tail (n : Int) (t0 : Nat) (ops : List Op) (k : Key) (a : Ans) :
+    (stepL (reachL n t0 ops) (.put k a)).1.ring =
+      { key := k, ans := a, hits := 0, stamp := (reachL n t0 ops).tick + 1 } ::
+        (removeKey (reachL n t0 ops).ring k).take ((reachL n t0 ops).maxSize - 1) :=
+  stepL_put _ k a (invL_run (initL n t0) ops (invL_init n t0)).maxPos
 
-/-- "never holds more entries than its limit" — after every `put`, whatever happened before (code as shipped). -/
-theorem lru_bound_after_every_put (i : Bool) (n : Int) (t0 : Nat) (ops : List Op) (k : Key) (a : Ans) :
-    (reachL i n t0 (ops ++ [.put k a])).ring.length ≤ (reachL i n t0 (ops ++ [.put k a])).maxSize := by
-  have hinv := invL_run i (initL n t0) ops (invL_init n t0)
-  have h := length_after_put i (reachL i n t0 ops) k a hinv.maxPos
-  have e : reachL i n t0 (ops ++ [.put k a]) = (stepL i (reachL i n t0 ops) (.put k a)).1 := by
-    simp only [reachL, runL_eq_runG, runG_snoc]
-  rw [e]; exact h
-
-/-- "The LRU cache never holds more entries than its limit" at full strength — after every prefix of every
-operation sequence — for the **intended** `set_max_size` (evict down to the new limit). -/
+/-- "The LRU cache never holds more entries than its limit": after **every operation** of **every** operation
+sequence (puts, hits, flushes, resizes up and down, clock advances, …), `len(data) ≤ max_size`; and the limit
+itself is always at least 1. -/
 theorem lru_bound (n : Int) (t0 : Nat) (ops : List Op) :
-    (reachL true n t0 ops).ring.length ≤ (reachL true n t0 ops).maxSize :=
-  bound_run true (initL n t0) ops (invL_init n t0) (by simp [initL]) (Or.inl rfl)
+    (reachL n t0 ops).ring.length ≤ (reachL n t0 ops).maxSize ∧ 1 ≤ (reachL n t0 ops).maxSize :=
+  ⟨bound_run (initL n t0) ops (invL_init n t0) (by simp [initL]), (invL_run (initL n t0) ops (invL_init n t0)).maxPos⟩
 
-/-- The same for the code **as shipped**, under the explicit guard that no `set_max_size` goes below the limit
-in force.  (Full statement, false as shipped: `∀ ops, (reachL false n t0 ops).ring.length ≤ (reachL false n t0 ops).maxSize`.) -/
-theorem lru_bound_partial (n : Int) (t0 : Nat) (ops : List Op) (h : noShrink (clampMax n) ops = true) :
-    (reachL false n t0 ops).ring.length ≤ (reachL false n t0 ops).maxSize :=
-  bound_run false (initL n t0) ops (invL_init n t0) (by simp [initL]) (Or.inr h)
+/-- … and from *any* state (even one above the limit) a single `put` or `set_max_size` re-establishes it. -/
+theorem lru_bound_restored (s : LState) (hm : 1 ≤ s.maxSize) (k : Key) (a : Ans) (m : Int) :
+    (stepL s (.put k a)).1.ring.length ≤ (stepL s (.put k a)).1.maxSize ∧
+    (stepL s (.setMax m)).1.ring.length ≤ (stepL s (.setMax m)).1.maxSize := by
+  refine ⟨length_after_put s k a hm, ?_⟩
+  simp only [stepL]
+  rw [evictTo_eq_take _ (by omega)]
+  simp only [List.length_take]; omega
 
-/-- the code as shipped violates the bound: `LRUCache(4)`, four puts, `set_max_size(2)` leaves 4 entries. -/
-theorem lru_bound_asShipped_fails :
-    ∃ ops, (reachL false 4 0 ops).maxSize < (reachL false 4 0 ops).ring.length :=
+/-- regression record: with the former `set_max_size` (no eviction) the bound fails — `LRUCache(4)`, four puts,
+`set_max_size(2)` left 4 entries.  (`stepLOld` is not part of the model of the current code.) -/
+theorem bound_needs_eviction_in_set_max_size :
+    ∃ ops, (runLOld (initL 4 0) ops).maxSize < (runLOld (initL 4 0) ops).ring.length :=
   ⟨[.put 0 ⟨0, 9⟩, .put 1 ⟨1, 9⟩, .put 2 ⟨2, 9⟩, .put 3 ⟨3, 9⟩, .setMax 2], by decide⟩
 
-example : noShrink (clampMax 2) [.put 0 ⟨0, 9⟩, .setMax 3, .put 1 ⟨1, 9⟩, .setMax 5, .get 0] = true := by decide
-example : (reachL true 4 0 [.put 0 ⟨0, 9⟩, .put 1 ⟨1, 9⟩, .put 2 ⟨2, 9⟩, .put 3 ⟨3, 9⟩, .setMax 2]).ring.length = 2 := by decide
+example : (reachL 4 0 [.put 0 ⟨0, 9⟩, .put 1 ⟨1, 9⟩, .put 2 ⟨2, 9⟩, .put 3 ⟨3, 9⟩, .setMax 2]).ring.length = 2 := by decide
+example : (reachL 1 0 [.put 0 ⟨0, 9⟩, .setMax 0, .put 1 ⟨1, 9⟩]).maxSize = 1 := by decide
 
 /-! ## evicts strictly least-recently-used first -/
 
 /-- the ghost stamp of a node is the tick of its last use: `put` and a hit set it to the current tick and put the
 node first; nothing else touches stamps.  After every operation sequence the ring is strictly ordered by last
 use, most recent first. -/
-theorem ring_ordered_by_last_use (i : Bool) (n : Int) (t0 : Nat) (ops : List Op) :
-    (reachL i n t0 ops).ring.Pairwise (fun a b => b.stamp < a.stamp) :=
-  (invL_run i (initL n t0) ops (invL_init n t0)).stamps.1
+theorem ring_ordered_by_last_use (n : Int) (t0 : Nat) (ops : List Op) :
+    (reachL n t0 ops).ring.Pairwise (fun a b => b.stamp < a.stamp) :=
+  (invL_run (initL n t0) ops (invL_init n t0)).stamps.1
 
 /-- "evicts strictly least-recently-used first": after any operation sequence, every entry a `put` evicts was
 used strictly earlier than every entry it keeps. -/
-theorem evicts_lru_first (i : Bool) (n : Int) (t0 : Nat) (ops : List Op) (k : Key) (a : Ans)
-    (e : Node) (he : e ∈ (reachL i n t0 ops).ring) (hek : e.key ≠ k)
-    (hev : e ∉ (stepL i (reachL i n t0 ops) (.put k a)).1.ring)
-    (r : Node) (hr : r ∈ (stepL i (reachL i n t0 ops) (.put k a)).1.ring) (hrk : r.key ≠ k) :
+theorem evicts_lru_first (n : Int) (t0 : Nat) (ops : List Op) (k : Key) (a : Ans)
+    (e : Node) (he : e ∈ (reachL n t0 ops).ring) (hek : e.key ≠ k)
+    (hev : e ∉ (stepL (reachL n t0 ops) (.put k a)).1.ring)
+    (r : Node) (hr : r ∈ (stepL (reachL n t0 ops) (.put k a)).1.ring) (hrk : r.key ≠ k) :
     e.stamp < r.stamp := by
-  have hinv := invL_run i (initL n t0) ops (invL_init n t0)
+  have hinv := invL_run (initL n t0) ops (invL_init n t0)
   rw [put_evicts_exactly_lru_tail] at hev hr
-  have hR : e ∈ removeKey (reachL i n t0 ops).ring k := mem_removeKey.mpr ⟨he, hek⟩
-  have hsorted := hinv.stamps.1.sublist (removeKey_sublist (reachL i n t0 ops).ring k)
-  rw [← List.take_append_drop ((reachL i n t0 ops).maxSize - 1) (removeKey (reachL i n t0 ops).ring k)] at hR hsorted
-  have hr' : r ∈ (removeKey (reachL i n t0 ops).ring k).take ((reachL i n t0 ops).maxSize - 1) := by
+  have hR : e ∈ removeKey (reachL n t0 ops).ring k := mem_removeKey.mpr ⟨he, hek⟩
+  have hsorted := hinv.stamps.1.sublist (removeKey_sublist (reachL n t0 ops).ring k)
+  rw [← List.take_append_drop ((reachL n t0 ops).maxSize - 1) (removeKey (reachL n t0 ops).ring k)] at hR hsorted
+  have hr' : r ∈ (removeKey (reachL n t0 ops).ring k).take ((reachL n t0 ops).maxSize - 1) := by
     rcases List.mem_cons.mp hr with e' | hm
     · subst e'; exact absurd rfl hrk
     · exact hm
-  have he' : e ∈ (removeKey (reachL i n t0 ops).ring k).drop ((reachL i n t0 ops).maxSize - 1) := by
+  have he' : e ∈ (removeKey (reachL n t0 ops).ring k).drop ((reachL n t0 ops).maxSize - 1) := by
     rcases List.mem_append.mp hR with hm | hm
     · exact absurd (List.mem_cons_of_mem _ hm) hev
     · exact hm
   exact (List.pairwise_append.mp hsorted).2.2 r hr' e he'
 
 /-- … and nothing is evicted unless the cache is full. -/
-theorem evicts_only_when_full (i : Bool) (n : Int) (t0 : Nat) (ops : List Op) (k : Key) (a : Ans)
-    (hfull : (removeKey (reachL i n t0 ops).ring k).length < (reachL i n t0 ops).maxSize)
-    (e : Node) (he : e ∈ (reachL i n t0 ops).ring) (hek : e.key ≠ k) :
-    e ∈ (stepL i (reachL i n t0 ops) (.put k a)).1.ring := by
+theorem evicts_only_when_full (n : Int) (t0 : Nat) (ops : List Op) (k : Key) (a : Ans)
+    (hfull : (removeKey (reachL n t0 ops).ring k).length < (reachL n t0 ops).maxSize)
+    (e : Node) (he : e ∈ (reachL n t0 ops).ring) (hek : e.key ≠ k) :
+    e ∈ (stepL (reachL n t0 ops) (.put k a)).1.ring := by
   rw [put_evicts_exactly_lru_tail, List.take_of_length_le (by omega)]
   exact List.mem_cons_of_mem _ (mem_removeKey.mpr ⟨he, hek⟩)
 
-example : ((reachL false 2 0 [.put 0 ⟨0, 9⟩, .put 1 ⟨1, 9⟩, .get 0, .put 2 ⟨2, 9⟩]).ring.map (·.key)) = [2, 0] := by decide
+example : ((reachL 2 0 [.put 0 ⟨0, 9⟩, .put 1 ⟨1, 9⟩, .get 0, .put 2 ⟨2, 9⟩]).ring.map (·.key)) = [2, 0] := by decide
 
 /-! ## counters -/
 
@@ -196,10 +191,10 @@ theorem counters_exact_cache (iv t0 : Nat) (ops : List Op) :
   runC_counters (initC iv t0) ops
 
 /-- the same for `LRUCache`, both variants. -/
-theorem counters_exact_lru (i : Bool) (n : Int) (t0 : Nat) (ops : List Op) :
-    ((reachL i n t0 ops).hits, (reachL i n t0 ops).misses) =
-      countersSpec (0, 0) (ops.zip (runL i (initL n t0) ops).2) :=
-  runL_counters i (initL n t0) ops
+theorem counters_exact_lru (n : Int) (t0 : Nat) (ops : List Op) :
+    ((reachL n t0 ops).hits, (reachL n t0 ops).misses) =
+      countersSpec (0, 0) (ops.zip (runL (initL n t0) ops).2) :=
+  runL_counters (initL n t0) ops
 
 /-- without a reset, hits + misses is the number of lookups. -/
 theorem hits_plus_misses_cache (iv t0 : Nat) (ops : List Op) (h : ∀ op ∈ ops, isReset op = false) :
@@ -211,17 +206,17 @@ theorem hits_plus_misses_cache (iv t0 : Nat) (ops : List Op) (h : ∀ op ∈ ops
   simp only [Nat.zero_add] at hs
   rw [hs, filter_zip_fst isGet ops _ (runC_length _ ops)]
 
-theorem hits_plus_misses_lru (i : Bool) (n : Int) (t0 : Nat) (ops : List Op) (h : ∀ op ∈ ops, isReset op = false) :
-    (reachL i n t0 ops).hits + (reachL i n t0 ops).misses = (ops.filter isGet).length := by
-  have hc := counters_exact_lru i n t0 ops
-  have hs := countersSpec_sum (0, 0) (ops.zip (runL i (initL n t0) ops).2)
+theorem hits_plus_misses_lru (n : Int) (t0 : Nat) (ops : List Op) (h : ∀ op ∈ ops, isReset op = false) :
+    (reachL n t0 ops).hits + (reachL n t0 ops).misses = (ops.filter isGet).length := by
+  have hc := counters_exact_lru n t0 ops
+  have hs := countersSpec_sum (0, 0) (ops.zip (runL (initL n t0) ops).2)
     (fun p hp => h p.1 (List.of_mem_zip hp).1)
   rw [← hc] at hs
   simp only [Nat.zero_add] at hs
-  rw [hs, filter_zip_fst isGet ops _ (runL_length i _ ops)]
+  rw [hs, filter_zip_fst isGet ops _ (runL_length _ ops)]
 
-example : ((reachL false 2 0 [.put 0 ⟨0, 9⟩, .get 0, .get 1, .adv 9, .get 0]).hits,
-           (reachL false 2 0 [.put 0 ⟨0, 9⟩, .get 0, .get 1, .adv 9, .get 0]).misses) = (1, 2) := by decide
+example : ((reachL 2 0 [.put 0 ⟨0, 9⟩, .get 0, .get 1, .adv 9, .get 0]).hits,
+           (reachL 2 0 [.put 0 ⟨0, 9⟩, .get 0, .get 1, .adv 9, .get 0]).misses) = (1, 2) := by decide
 
 /-! ## many threads, one lock -/
 
@@ -266,12 +261,12 @@ theorem mutual_exclusion {σ : Type} (step : σ → Op → σ × Out) (s0 : σ) 
     rw [e1, e2]
 
 /-- instance: several threads on one `LRUCache` see the sequential `LRUCache` run in acquisition order. -/
-theorem linearizable_lru (i : Bool) (n : Int) (t0 : Nat) (progs : Nat → List Op) (sched : List Nat) :
-    let y := sysRun (stepL i) (sysInit (initL n t0) progs) sched
+theorem linearizable_lru (n : Int) (t0 : Nat) (progs : Nat → List Op) (sched : List Nat) :
+    let y := sysRun (stepL) (sysInit (initL n t0) progs) sched
     y.lock = none →
-      runL i (initL n t0) (y.acq.map (fun e => e.2)) = (y.shared, y.ran.map (fun e => e.2.2)) := by
+      runL (initL n t0) (y.acq.map (fun e => e.2)) = (y.shared, y.ran.map (fun e => e.2.2)) := by
   intro y hl
-  have h := linearizable (stepL i) (initL n t0) progs sched
+  have h := linearizable (stepL) (initL n t0) progs sched
   have hacq : y.acq.map (fun e => e.2) = y.ran.map (fun e => e.2.1) := by
     rw [← h.2.2.2.1 hl, List.map_map]; rfl
   rw [runL_eq_runG, hacq]; exact h.1
@@ -289,7 +284,7 @@ theorem linearizable_cache (iv t0 : Nat) (progs : Nat → List Op) (sched : List
 
 /-- two threads, a schedule where thread 1 gets the lock between thread 0's two operations -/
 example :
-    (sysRun (stepL false) (sysInit (initL 2 0) (fun j => if j = 0 then [.put 0 ⟨5, 9⟩, .get 1] else if j = 1 then [.put 1 ⟨6, 9⟩] else []))
+    (sysRun (stepL) (sysInit (initL 2 0) (fun j => if j = 0 then [.put 0 ⟨5, 9⟩, .get 1] else if j = 1 then [.put 1 ⟨6, 9⟩] else []))
       [0, 1, 0, 1, 0, 1, 1, 1, 0, 0, 0]).acq = [(0, .put 0 ⟨5, 9⟩), (1, .put 1 ⟨6, 9⟩), (0, .get 1)] := by decide
 
 end C17
